@@ -212,6 +212,7 @@ func init() {
 		ID: "C08",
 		Runs: []hrun{
 			{Pkg: waddrmgrPkg, Fn: "ZzC08L2", Tiers: "qt", Reach: []string{"c08-end", "rolled-back", "commit-failed"}, Bound: "every history of 2 transactions from {next-external, next-internal, rename, mark-used, set-synced-to, new-account, extend-external}, each committed, rolled back (dry run) or failing at commit; fresh Open compared after every transaction"},
+			{Pkg: waddrmgrPkg, Fn: "ZzC08ImportedL2", Tiers: "qt", Reach: []string{"c08-end", "imported-account", "rolled-back"}, Bound: "the same 7 operations on an imported extended-public-key account that already has 2 external and 1 internal address, histories of 2 transactions"},
 			{Pkg: waddrmgrPkg, Fn: "ZzC08L3", Tiers: "t", Reach: []string{"c08-end", "rolled-back", "commit-failed"}, Bound: "histories of 3 transactions"},
 		},
 		Assume:  mgrAssume,
